@@ -187,3 +187,17 @@ Theorem C01_whole_pipeline_write_is_write_file :
            end.
 Proof. exact Gengo.Props.Whole.Whole_write_file_is_genfile_write_file. Qed.
 Print Assumptions C01_whole_pipeline_write_is_write_file.
+
+(* ... and the write loops (context.go 223-231) leave the same package directory, or both fail *)
+Theorem C01_whole_pipeline_write_loop_is_write_all :
+  forall (E : Pipeline.env) fmt1 fmt2, Pipeline.e_fmt E = Whole.genfile_fmt fmt1 fmt2 ->
+  forall a p gfs rem fsys s,
+    WholeGenFile.dir_rel p fsys s ->
+    match write_all fmt1 fmt2 true (Pipeline.a_base a) (Pipeline.pk_name p) (map Whole.genfile_of gfs) fsys,
+          Pipeline.write_loop_fs E a p gfs rem s with
+    | None, (_, _, Some (Pipeline.EParse _)) => True
+    | Some fsys', (s', _, None) => WholeGenFile.dir_rel p fsys' s'
+    | _, _ => False
+    end.
+Proof. exact Gengo.Props.Whole.Whole_write_loop_is_genfile_write_all. Qed.
+Print Assumptions C01_whole_pipeline_write_loop_is_write_all.
